@@ -364,7 +364,13 @@ def kernel_values(E, case, objs, factor, fsz, mul):
             if factor is not None:
                 a = np.asarray(a) * factor
             if form in ("reduce",):
-                r = uf.reduce(a, initial=np.asarray(strip(E, objs["b"])).item()) if case.get("initial") else uf.reduce(a)
+                if case.get("initial"):
+                    ini = np.asarray(strip(E, objs["b"])).item()
+                    if case.get("finit") is not None:
+                        ini = ini * case["finit"]          # initial.to_value(u)
+                    r = uf.reduce(a, initial=ini)
+                else:
+                    r = uf.reduce(a)
             elif form == "accumulate":
                 r = uf.accumulate(a)
             else:
@@ -666,7 +672,8 @@ class Ufuncs:
             elif form == "inplace":
                 out = a
             ow = out_wire(E, out)
-            c["line_head"] = ["c01.dispatch", uname, method, str(nin)] + ops + ow + ["-"]
+            iw = ["I"] + operand_wire(E, b) if c["initial"] else ["-"]
+            c["line_head"] = ["c01.dispatch", uname, method, str(nin)] + ops + iw + ow + ["-"]
             c2 = dict(c)
             c2["ufunc"] = uname
             ke, ksh = probe_kernel(E, c2, self.fresh(c))
@@ -763,6 +770,7 @@ class Ufuncs:
         mul = core.b2f(rep[6])
         early = rep[7]
         effects = parse_effects(rep[8])
+        finit = None if len(rep) < 10 or rep[9] == "none" else core.b2f(rep[9])
         first = res[0] if isinstance(res, tuple) else res
         if early != "none":
             want = early == "1"
@@ -782,7 +790,11 @@ class Ufuncs:
             c2["ufunc"] = c["dispatch_ufunc"]
             c2["retyped"] = ("R",) in effects
             c2["factor0"] = factor0
-            want_vals = kernel_values(E, c2, self.fresh(c), factor, fsz, mul)
+            c2["finit"] = finit
+            fr = self.fresh(c)
+            if c["initial"] and getattr(getattr(fr.get("b"), "units", None), "base_offset", 0):
+                raise LookupError("offset-initial")   # affine conversion of the start value: C03/C08's business
+            want_vals = kernel_values(E, c2, fr, factor, fsz, mul)
         except Exception as e:  # noqa: BLE001
             chk.count("kernel-values-unavailable:" + type(e).__name__)
             want_vals = None
@@ -880,7 +892,7 @@ class Ufuncs:
         is_cmp = uname in CMP
         eqne = uname in ("equal", "not_equal")
         documented = None
-        if zero_bare and not c["initial"]:
+        if zero_bare:
             documented = "zero"
         elif is_cmp and dimless and not c["initial"]:
             documented = "dimensionless-comparison"
@@ -925,7 +937,7 @@ class Ufuncs:
                     key = f"eqne-not-constant|{form}"
                 chk.fail(key, f"{c['call']} between incommensurable operands answered {str(first)[:40]!r}, not all-{want}",
                          self.replay(c, f"r = {c['call']}\nassert np.all(np.asarray(r) == {want}), r\n"))
-        if documented == "zero" and st[0] == "ok" and not is_cmp:
+        if documented == "zero" and st[0] == "ok" and not is_cmp and not c["initial"]:
             # the all-zero bare operand takes the unit of its partner: the result keeps that dimension
             partner = b if (is_bare(E, a) and all_zero(a)) else a
             pd = dims_of(E, partner)
@@ -944,7 +956,7 @@ class Ufuncs:
         E = self.E
         uname, form = c["ufunc"], c["form"]
         if c["initial"]:
-            return "reduce|initial"
+            return "reduce|initial|" + ("bare" if is_bare(E, b) else "quantity")
         if uname == "divmod":
             return "table|divmod"
         for x, y in ((a, b), (b, a)):
@@ -1450,12 +1462,8 @@ def check_reference_rows(chk, M):
 
 
 WITNESSES = [
-    ("ufunc|zero-unyt-operand", "zero_unyt_operand_counterexample",
-     "r = unyt_array([0.0, 0.0, 0.0], 'm') + np.array([1.0, 2.0, 3.0])\n"),
-    ("ufunc|zero-quantity-list", "zero_quantity_list_counterexample",
-     "r = unyt_array([1.0, 2.0, 3.0], 'm') + [unyt_quantity(0.0, 's')] * 3\n"),
-    ("reduce|initial", "reduce_initial_counterexample",
-     "r = np.add.reduce(unyt_array([1.0, 2.0, 3.0], 'm'), initial=unyt_quantity(1.0, 's'))\n"),
+    ("reduce|initial|bare", "reduce_initial_bare_counterexample",
+     "r = np.add.reduce(unyt_array([1.0, 2.0, 3.0], 'm'), initial=1.0)\n"),
     ("table|divmod", "unchecked_ufuncs_counterexample",
      "r = np.divmod(unyt_array([1.0, 2.0, 3.0], 'm'), unyt_quantity(2.0, 's'))\n"),
     ("setitem|dimensionless-quantity", "C01_setitem_counterexample",
@@ -1481,15 +1489,6 @@ def run_witnesses(chk, E):
         else:
             # the model's counterexample no longer reproduces: model and code have drifted apart
             chk.disagree("witness", f"{thm}: the real code now raises on the theorem's witness")
-    ns = dict(E.ns)
-    body = "x = unyt_array([1, 2, 3], 'm')\ntry:\n    x += unyt_array([1, 2, 3], 's')\nexcept Exception:\n    pass\n"
-    exec(body, ns)
-    chk.case(("witness", "int_out_retyped_counterexample"))
-    if str(ns["x"].dtype) != "int64":
-        chk.fail("raised-but-operand-retyped", "witness of int_out_retyped_counterexample: x += y_s raised but x.dtype is now " + str(ns["x"].dtype),
-                 {"python": ENV_SRC + body + "assert str(x.dtype) == 'int64', x.dtype\n", "theorem": "int_out_retyped_counterexample"})
-    else:
-        chk.disagree("witness", "int_out_retyped_counterexample: the real code no longer retypes")
 
 
 def _ufunc_worker(args):
